@@ -52,95 +52,107 @@ func dispatch(run *lib.Run) {
 		fail := func(key, msg string, w any) {
 			run.Violation("dispatch:"+key, msg, idx, map[string]any{"args": args, "detail": w})
 		}
-		// 1. plain request
-		func() {
-			s, err := lib.Dial(cli.ProxyAddr)
-			if err != nil {
-				run.Inconclusive("dial cli")
-				return
-			}
-			defer s.Close()
-			fmt.Fprintf(s.C, "GET http://origin.test/plain HTTP/1.1\r\nHost: origin.test\r\n%s\r\n", clientHdr)
-			res, st, err := s.ReadResponse("GET", 10*time.Second)
-			if st != lib.POK {
-				run.Inconclusive(fmt.Sprintf("no response to plain request: %v", err))
-				return
-			}
-			reqs := up.Requests()
-			if len(reqs) != 1 {
-				fail("request-not-forwarded", fmt.Sprintf("upstream saw %d requests", len(reqs)), nil)
-				return
-			}
-			q := reqs[0]
-			run.Count("dispatch_requests_observed", 1)
-			if q.Get1("X-Rq-Add") != vRq || q.Has("X-Del-Rq") || !q.Has("X-Emp-Rq") || q.Get1("X-Emp-Rq") != "" {
-				fail("request-rules-not-applied", "request rules not applied to a non-CONNECT request", q.Fields)
-			}
-			if q.Has("X-Cn-Add") || !q.Has("X-Del-Cn") || q.Has("X-Emp-Cn") {
-				fail("connect-rules-on-request", "connect rules applied to a non-CONNECT request", q.Fields)
-			}
-			if q.Has("X-Rs-Add") || !q.Has("X-Del-Rs") || q.Has("X-Emp-Rs") {
-				fail("response-rules-on-request", "response rules applied to a request", q.Fields)
-			}
-			if res.Get1("X-Rs-Add") != vRs || res.Has("X-Del-Rs") || !res.Has("X-Emp-Rs") || res.Get1("X-Emp-Rs") != "" {
-				fail("response-rules-not-applied", "response rules not applied to a non-CONNECT response", res.Fields)
-			}
-			if res.Has("X-Rq-Add") || !res.Has("X-Del-Rq") || res.Has("X-Cn-Add") || res.Get1("X-Keep") != "k" || string(res.Body) != "body" {
-				fail("request-rules-on-response", "request/connect rules leaked into the response or response damaged", res.Fields)
-			}
-		}()
-		up.Reset()
-		// 2. CONNECT
-		func() {
-			s, err := lib.Dial(cli.ProxyAddr)
-			if err != nil {
-				run.Inconclusive("dial cli")
-				return
-			}
-			defer s.Close()
-			fmt.Fprintf(s.C, "CONNECT origin.test:443 HTTP/1.1\r\nHost: origin.test:443\r\n%s\r\n", clientHdr)
-			res, st, err := s.ReadResponse("CONNECT", 10*time.Second)
-			if st != lib.POK || res.Status != 200 {
-				run.Inconclusive(fmt.Sprintf("no 200 to CONNECT: %v %v", res, err))
-				return
-			}
-			reqs := up.Requests()
-			if len(reqs) != 1 || reqs[0].Method != "CONNECT" {
-				fail("connect-not-forwarded", fmt.Sprintf("upstream saw %d requests", len(reqs)), nil)
-				return
-			}
-			q := reqs[0]
-			run.Count("dispatch_connects_observed", 1)
-			if q.Get1("X-Cn-Add") != vCn || q.Has("X-Del-Cn") || !q.Has("X-Emp-Cn") {
-				fail("connect-rules-not-applied", "connect rules not applied to the CONNECT request", q.Fields)
-			}
-			if q.Has("X-Rq-Add") || !q.Has("X-Del-Rq") || q.Has("X-Emp-Rq") {
-				fail("request-rules-on-connect", "request rules applied to a CONNECT request", q.Fields)
-			}
-			if res.Has("X-Rs-Add") || res.Has("X-Emp-Rs") {
-				fail("response-rules-on-connect-response", "response rules applied to the CONNECT response", res.Fields)
-			}
-			// inside the tunnel nothing is rewritten
-			fmt.Fprintf(s.C, "GET /inner HTTP/1.1\r\nHost: origin.test\r\n%s\r\n", clientHdr)
-			res2, st2, _ := s.ReadResponse("GET", 10*time.Second)
-			if st2 == lib.POK {
-				if res2.Has("X-Rs-Add") || !res2.Has("X-Del-Rs") {
-					fail("rules-inside-tunnel", "response rules applied to bytes inside a tunnel", res2.Fields)
-				}
-				rr := up.Requests()
-				if len(rr) == 2 && (rr[1].Has("X-Rq-Add") || !rr[1].Has("X-Del-Rq")) {
-					fail("rules-inside-tunnel", "request rules applied to bytes inside a tunnel", rr[1].Fields)
+		one := func(xs []string, v string) bool { return len(xs) == 1 && xs[0] == v }
+		// every rule is applied exactly once to every message, however many went before it
+		find := func(vid string) []*lib.Msg {
+			var out []*lib.Msg
+			for _, q := range up.Requests() {
+				if q.Get1("X-Vid") == vid {
+					out = append(out, q)
 				}
 			}
-		}()
+			return out
+		}
+		for round := 0; round < 3; round++ {
+			// 1. plain request
+			func() {
+				s, err := lib.Dial(cli.ProxyAddr)
+				if err != nil {
+					run.Inconclusive("dial cli")
+					return
+				}
+				defer s.Close()
+				fmt.Fprintf(s.C, "GET http://origin.test/plain HTTP/1.1\r\nHost: origin.test\r\nX-Vid: p%d\r\n%s\r\n", round, clientHdr)
+				res, st, err := s.ReadResponse("GET", 10*time.Second)
+				if st != lib.POK {
+					run.Inconclusive(fmt.Sprintf("no response to plain request: %v", err))
+					return
+				}
+				reqs := find(fmt.Sprintf("p%d", round))
+				if len(reqs) != 1 {
+					fail("request-not-forwarded", fmt.Sprintf("upstream saw %d requests", len(reqs)), nil)
+					return
+				}
+				q := reqs[0]
+				run.Count("dispatch_requests_observed", 1)
+				if !one(q.Get("X-Rq-Add"), vRq) || q.Has("X-Del-Rq") || !one(q.Get("X-Emp-Rq"), "") {
+					fail("request-rules-not-applied", "request rules not applied to a non-CONNECT request", q.Fields)
+				}
+				if q.Has("X-Cn-Add") || !q.Has("X-Del-Cn") || q.Has("X-Emp-Cn") {
+					fail("connect-rules-on-request", "connect rules applied to a non-CONNECT request", q.Fields)
+				}
+				if q.Has("X-Rs-Add") || !q.Has("X-Del-Rs") || q.Has("X-Emp-Rs") {
+					fail("response-rules-on-request", "response rules applied to a request", q.Fields)
+				}
+				if !one(res.Get("X-Rs-Add"), vRs) || res.Has("X-Del-Rs") || !one(res.Get("X-Emp-Rs"), "") {
+					fail("response-rules-not-applied", "response rules not applied to a non-CONNECT response", res.Fields)
+				}
+				if res.Has("X-Rq-Add") || !res.Has("X-Del-Rq") || res.Has("X-Cn-Add") || res.Get1("X-Keep") != "k" || string(res.Body) != "body" {
+					fail("request-rules-on-response", "request/connect rules leaked into the response or response damaged", res.Fields)
+				}
+			}()
+			// 2. CONNECT
+			func() {
+				s, err := lib.Dial(cli.ProxyAddr)
+				if err != nil {
+					run.Inconclusive("dial cli")
+					return
+				}
+				defer s.Close()
+				fmt.Fprintf(s.C, "CONNECT origin.test:443 HTTP/1.1\r\nHost: origin.test:443\r\nX-Vid: c%d\r\n%s\r\n", round, clientHdr)
+				res, st, err := s.ReadResponse("CONNECT", 10*time.Second)
+				if st != lib.POK || res.Status != 200 {
+					run.Inconclusive(fmt.Sprintf("no 200 to CONNECT: %v %v", res, err))
+					return
+				}
+				reqs := find(fmt.Sprintf("c%d", round))
+				if len(reqs) != 1 || reqs[0].Method != "CONNECT" {
+					fail("connect-not-forwarded", fmt.Sprintf("upstream saw %d requests", len(reqs)), nil)
+					return
+				}
+				q := reqs[0]
+				run.Count("dispatch_connects_observed", 1)
+				if !one(q.Get("X-Cn-Add"), vCn) || q.Has("X-Del-Cn") || !one(q.Get("X-Emp-Cn"), "") {
+					fail("connect-rules-not-applied", fmt.Sprintf("connect rules not applied exactly once to CONNECT request #%d of this process", round+1), q.Fields)
+				}
+				if q.Has("X-Rq-Add") || !q.Has("X-Del-Rq") || q.Has("X-Emp-Rq") {
+					fail("request-rules-on-connect", "request rules applied to a CONNECT request", q.Fields)
+				}
+				if res.Has("X-Rs-Add") || res.Has("X-Emp-Rs") {
+					fail("response-rules-on-connect-response", "response rules applied to the CONNECT response", res.Fields)
+				}
+				// inside the tunnel nothing is rewritten
+				fmt.Fprintf(s.C, "GET /inner HTTP/1.1\r\nHost: origin.test\r\nX-Vid: i%d\r\n%s\r\n", round, clientHdr)
+				res2, st2, _ := s.ReadResponse("GET", 10*time.Second)
+				if st2 == lib.POK {
+					if res2.Has("X-Rs-Add") || !res2.Has("X-Del-Rs") {
+						fail("rules-inside-tunnel", "response rules applied to bytes inside a tunnel", res2.Fields)
+					}
+					rr := find(fmt.Sprintf("i%d", round))
+					if len(rr) == 1 && (rr[0].Has("X-Rq-Add") || !rr[0].Has("X-Del-Rq")) {
+						fail("rules-inside-tunnel", "request rules applied to bytes inside a tunnel", rr[0].Fields)
+					}
+				}
+			}()
+		}
 		if !cli.Alive() {
 			fail("cli-died", "forwarder exited during the dispatch run", lib.Trunc(cli.Output(), 2000))
 		}
 		cli.Stop()
 		up.Close()
 	}
-	run.Floor("dispatch_requests_observed", int64(n*8/10))
-	run.Floor("dispatch_connects_observed", int64(n*8/10))
+	run.Floor("dispatch_requests_observed", int64(3*n*8/10))
+	run.Floor("dispatch_connects_observed", int64(3*n*8/10))
 	_ = net.IPv4len
 	_ = strings.TrimSpace
 }
